@@ -15,6 +15,7 @@ import IclModel.Gen.Cp037
 import IclModel.Gen.Split
 import IclModel.ApiWire
 import IclModel.FileOKCheck
+import IclModel.CanonCheck
 import IclModel.GenModel
 open Icl Icl.Wire
 
@@ -135,6 +136,10 @@ def handle (line : String) : String :=
     if Icl.C01.fileOKb (theModel false ⟨2000, 1, 1⟩) { lp := lp == "1", ebcdic := ebc == "1" } (parseTree tree) then "ok" else "fail"
   | ["fileokwhy", lp, ebc, tree] =>
     Icl.C01.fileOKwhy (theModel false ⟨2000, 1, 1⟩) { lp := lp == "1", ebcdic := ebc == "1" } (parseTree tree)
+  | ["canonfile", tree] =>
+    -- the decidable part of the hypothesis `CanonFile` of the end-to-end C01 theorems (Props/C01Rec.lean)
+    let w := Icl.C01.canonFileWhy (theModel false ⟨2000, 1, 1⟩) (parseTree tree)
+    if w == "" then "ok" else w
   | ["api", h] => Icl.Api.Wire.runApi h
   | ["apifrom", st, h] => Icl.Api.Wire.runApiFrom st h
   | ["apiconc", st, rq, sc] => Icl.Api.Wire.runConc st rq sc
